@@ -193,7 +193,8 @@ def run(ctx):
         members = [m, t, u] if order == 'model first' else [t, u, m]
         j = Obj('Join', left=Obj('Join', left=members[0], right=members[1], condition=None, join_type='join', implicit=False, alias=None),
                 right=members[2], condition=None, join_type='join', implicit=False, alias=None)
-        planner = Obj('QueryPlanner', default_namespace='mindsdb', databases=['int1', 'int2', 'mindsdb'])
+        from .C10 import real_planner
+        planner = real_planner(ctx, ['int1', 'int2'], [], default_namespace='mindsdb')
         self_ = new_pjt(planner=planner, tables_idx={}, tables=[])
         stubs = base_stubs()
         stubs['self.planner.get_predictor'] = lambda it, n: ({'name': 'sales'} if n.parts[0].lower() == 'mindsdb' else None)
